@@ -191,7 +191,8 @@ pub fn requests(prop: &str, fl: &str, g: &GraphSpec, thorough: bool, rng: Option
     };
     match prop {
         "C04" | "C05" | "C06" => {
-            for d in dirs(fl, false) {
+            // transposed searches are breadth-/depth-/priority-first searches of the reversed graph: same statement
+            for d in dirs(fl, true) {
                 let ms = pick_methods(fl, d == "tr", rng, prop == "C06");
                 for &(r, t) in &pairs {
                     for k in &search_kinds {
@@ -237,6 +238,14 @@ pub fn requests(prop: &str, fl: &str, g: &GraphSpec, thorough: bool, rng: Option
                     for m in ms.iter().filter(|m| m.starts_with("filter")) {
                         for k in &search_kinds {
                             l.push(format!("search {k} {d} {r} {t} {m} path"));
+                            l.push(format!("search {k} {d} {r} {t} {m} node"));
+                        }
+                    }
+                }
+                for &r in roots.iter().take(if small { usize::MAX } else { 3 }) {
+                    for m in ms.iter().filter(|m| m.starts_with("filter")) {
+                        for k in &search_kinds {
+                            l.push(format!("search {k} {d} {r} - {m} cycle"));
                         }
                     }
                 }
@@ -269,7 +278,7 @@ pub fn requests(prop: &str, fl: &str, g: &GraphSpec, thorough: bool, rng: Option
             }
         }
         "C09" => {
-            for d in dirs(fl, false) {
+            for d in dirs(fl, true) {
                 let ms = pick_methods(fl, d == "tr", rng, false);
                 for &r in &roots {
                     for k in &search_kinds {
